@@ -204,6 +204,8 @@ class E2EWorld(World):
             out["shell"] = [core.short(m.d) for m in replies]
             self._send(st, who, replies)
             return
+        out["pdu_d"] = msg.d
+        out["pre_step"] = ent.h.states.step.name
         pdu = msg.fresh()
         if flip:
             data = bytearray(pdu.file_data)
@@ -216,6 +218,8 @@ class E2EWorld(World):
     def apply(self, st, ev):
         out = {}
         k = ev[0]
+        if k in ("tick", "expire", "cancel"):
+            out["pre_step"] = getattr(st, ev[1]).h.states.step.name
         if k == "tick":
             ent = getattr(st, ev[1])
             obs, msgs = ent.step(None)
@@ -275,7 +279,7 @@ class E2EWorld(World):
         return out
 
     def quiet(self, obs):
-        return not obs or set(obs) <= {"dt"}
+        return not obs or set(obs) <= {"dt", "pre_step"}
 
     # ---- helpers for oracles -----------------------------------------------------------------
     def both_idle(self, st):
